@@ -1,7 +1,7 @@
 /* C16: sodium_pad / sodium_unpad */
 #include "hx.h"
 
-typedef struct { buf_t b; uint64_t n, bs; } pad_args;
+typedef struct { buf_t b; uint64_t n, bs; unsigned char *orig; } pad_args;
 
 static void do_pad(void *a_, FILE *o) {
     pad_args *a = (pad_args *) a_;
@@ -10,17 +10,25 @@ static void do_pad(void *a_, FILE *o) {
     if (rc == 0) { fprintf(o, "0 %llu ", (unsigned long long) padded); }
     else { fprintf(o, "%d ", rc); }
     hx_put_hex(o, a->b.p, a->b.n);
+    /* the optional-pointer call form sodium_pad(NULL, ...) on a copy of the ORIGINAL buffer must return the same code and leave the same bytes */
+    if (a->orig != NULL) {
+        int rc2 = sodium_pad(NULL, a->orig, (size_t) a->n, (size_t) a->bs, a->b.n);
+        if (rc2 != rc || memcmp(a->orig, a->b.p, a->b.n) != 0) fputs(" NULL-LENP-FORM-DIFFERS", o);
+    }
 }
 static int op_pad(int argc, char **argv, FILE *o) {
     pad_args a;
     if (argc != 3 || hx_hex(argv[0], &a.b)) return -1;
     if (hx_u64(argv[1], &a.n) || hx_u64(argv[2], &a.bs)) { hx_free(&a.b); return -1; }
+    a.orig = NULL;
+    if (a.n <= a.b.n) { a.orig = (unsigned char *) hx_alloc(a.b.n); memcpy(a.orig, a.b.p, a.b.n); }
     if (a.n > a.b.n) {   /* out-of-contract length: observe misuse in a child */
         char out[65536]; int r = hx_in_child(do_pad, &a, out, sizeof out);
         if (r == 0) fputs(out, o); else if (r == 1) fputs("misuse", o); else fputs("crash", o);
     } else {
         do_pad(&a, o);
     }
+    if (a.orig != NULL) hx_release(a.orig);
     hx_free(&a.b);
     return 0;
 }
